@@ -285,8 +285,6 @@ compare_images(const char* what, const std::vector<double>& got, const std::vect
     }
   if (scale > 0)
     stats().maxi(stat_key, worst / scale);
-  if (std::getenv("VERIF_C07_DEBUG"))
-    std::cerr << "DEBUG " << what << " " << ctx << " worst/scale=" << (scale > 0 ? worst / scale : worst) << "\n";
   VF_CHECK(worst <= tol * scale || (scale == 0 && worst == 0), what, ": |diff|=", worst, " at voxel ", where, " (got ", got[where], ", expected ", want[where],
            "), max expected ", scale, " ", ctx);
   return Result::pass();
